@@ -186,6 +186,7 @@ def classify(func, args, kw):
 
 
 CELLS = ["a", "1", "", " ", "-", "é"]
+LEVEL = "exploration"
 OBLIGATIONS = []
 ENUM = [
   {"func": "rectangular", "domains": {"n": [1, 2, 3], "w": [1, 2, 3], "hdr": [False, True],
